@@ -85,7 +85,7 @@ check("C18", "exploration",
 
 
 check("C17", "fault_enumeration",
-      "A hand-built archetype runs on real MPCalContexts with wrapper resources counting Close per instance; the full product of end cause (Done, Stop, assertion, Error label, resource error, never started) x number of concurrent Stop callers (0,1,2,3,5) x Stop timing (before Run, during a section, during commit, during cleanup, after return; realised with H1 gates, no timers) x instant/gated cleanup x resource mix (locals, IncMap with 0-3 elements, HashMap) is enumerated completely, plus second-Run scenarios, free-running jitter scenarios (a share under -race) and, in thorough, TCP mailbox / failure detector / nested-context mixes. Oracles: every Stop returns, Run returns, a second Run is rejected, no commit point after a Stop returned, Close exactly once per resource and map element, distinct result classes; deadlock is decided structurally (every goroutine parked / wait-for cycle in the dump), never by a deadline.",
+      "A hand-built archetype runs on real MPCalContexts with wrapper resources counting Close per instance; the full product of end cause (Done, Stop, assertion, Error label, resource error, never started) x number of concurrent Stop callers (0,1,2,3,5) x Stop timing (before Run, during a section, during commit, during cleanup, after return; realised with H1 gates, no timers) x instant/gated cleanup x resource mix (locals, IncMap with 0-3 elements, HashMap) is enumerated completely, plus second-Run scenarios, free-running jitter scenarios (a share under -race) and, in thorough, TCP mailbox / failure detector / nested-context mixes. Oracles: every Stop returns, Run returns, a second Run is rejected, no commit point after a Stop returned, no Close call or Close completion of a started run after a Stop returned (event-sequence order), Close exactly once per resource and map element, distinct result classes; deadlock is decided structurally (every goroutine parked / wait-for cycle in the dump), never by a deadline.",
       "The Go runtime's own deadlock detector does not fire in cgo-linked binaries, so the 'all goroutines parked' criterion is evaluated by the harness on a stop-the-world snapshot; a bare stall or watchdog expiry is inconclusive. Exhaustive for the enumerated small-mix product only.",
       "runtime monitoring: enumerated lifecycle scenarios with gate hooks, Close-counting wrapper resources, structural deadlock criterion, race detector", "direct")
 
